@@ -23,7 +23,7 @@ class C08(Check):
                    'repeated interior knots have multiplicity <= order-1 (spline stays continuous); for order 1 a point on an '
                    'interior knot may take either neighbouring coefficient',
                    'everyn with nx//everyn < 2 is the open finding everyn_single_breakpoint (see known_findings.json)']
-    REQUIRED_COUNTERS = ('value_with_precomputed_action', 'mask_changed_on_evaluated_object', 'knots_through_iterfit_unsorted_data', 'canary_sequences', 'single_point_evaluations', 'presorted_evaluations', 'opt_bkspace', 'opt_nbkpts', 'opt_everyn', 'opt_placed', 'opt_bkpt', 'not_cover_adjusted',
+    REQUIRED_COUNTERS = ('nan_evaluations_with_outside_points_above_only', 'caller_breakpoint_array_reused_afterwards_order1', 'value_with_precomputed_action', 'mask_changed_on_evaluated_object', 'knots_through_iterfit_unsorted_data', 'canary_sequences', 'single_point_evaluations', 'presorted_evaluations', 'opt_bkspace', 'opt_nbkpts', 'opt_everyn', 'opt_placed', 'opt_bkpt', 'not_cover_adjusted',
                          'points_compared_inside', 'points_outside_checked', 'unsorted_inputs', 'float32_inputs',
                          'scipy_agreements')
     CASE_CPU_S = 60
@@ -316,6 +316,23 @@ class C08(Check):
             ys_, ms_ = s.value(xe[idx].copy())
             same(ys_, ms_, idx, what)
         out.count('presorted_evaluations', 2)
+        # ---- missing evaluation points: a NaN among the points is neither inside nor outside; it must not change what is said about
+        #      the other points (outside points on one side only, on both sides, none)
+        for side in ('above', 'below', 'both', 'none'):
+            sel = {'above': xd >= bp[0], 'below': xd <= bp[-1], 'both': np.ones(xd.size, dtype=bool), 'none': inside}[side]
+            idx = np.flatnonzero(sel)[: 60]
+            if idx.size == 0:
+                continue
+            xn = np.concatenate([xe[idx], np.array([np.nan], dtype=xe.dtype)])
+            pn = g.permutation(xn.size)
+            with warnings.catch_warnings():
+                warnings.simplefilter('ignore')
+                with np.errstate(all='ignore'):
+                    yn, mn = s.value(xn[pn].copy())
+            back = np.argsort(pn)[: idx.size]
+            same(np.asarray(yn)[back], np.asarray(mn)[back], idx, 'the same points with one NaN among them (outside points: %s)' % side)
+            out.count('evaluations_with_a_nan_among_the_points')
+            out.count('nan_evaluations_with_outside_points_above_only', side == 'above' and bool((~inside[idx]).any()))
         # ---- the documented keyword form: an action matrix precomputed for the points in increasing order (as action() requires)
         #      handed to value() together with the points in the caller's order
         with warnings.catch_warnings():
@@ -362,6 +379,26 @@ class C08(Check):
             out.expect(float(bf.min()) >= -tolb, 'basis', 'negative basis function value %r' % float(bf.min()))
             dev = float(np.abs(bf.sum(axis=1) - 1).max())
             out.expect(dev <= tolb * 10, 'basis', 'basis functions do not sum to one (dev %.3g)' % dev)
+        # ---- the spline set owns its knots: what the caller does afterwards with the array it passed as bkpt= / placed= (refilling
+        #      the buffer, using it for a second, wider data set - bspline() moves the end breakpoints of an array that does not
+        #      cover the data) must not reach the set already constructed
+        if opt in ('bkpt', 'placed') and kw[opt].size:
+            t0 = np.array(s.breakpoints, copy=True)
+            y0, m0 = s.value(xe)
+            with warnings.catch_warnings():
+                warnings.simplefilter('ignore')
+                try:
+                    B.bspline(np.concatenate([x, [x.min() - (xmax - xmin + 1), x.max() + (xmax - xmin + 1)]]).astype(x.dtype), nord=k, **kw)
+                except Exception:
+                    pass
+            kw[opt][:] = kw[opt][::-1] * 3 + 1
+            y9, m9 = s.value(xe)
+            out.expect(bool(np.array_equal(np.asarray(s.breakpoints), t0)) and bool(np.array_equal(m9, m0)) and
+                       bool(np.array_equal(y9, y0, equal_nan=True)), 'knots',
+                       'the knots / values of a constructed set changed when the caller reused the array it had passed as %s=' % opt,
+                       knots_before=t0[:8], knots_after=np.asarray(s.breakpoints)[:8], order=k)
+            out.count('caller_breakpoint_array_reused_afterwards')
+            out.count('caller_breakpoint_array_reused_afterwards_order1', k == 1)
         nint = int((np.diff(bp) > 0).sum())
         per = np.histogram(xd[inside], bins=bp)[0] if nint >= 1 and np.all(np.diff(bp) > 0) else np.array([0])
         out.nontrivial = k >= 2 and nint >= 3 and bool(np.all(per >= 1))
